@@ -171,7 +171,31 @@ def props_of(prog, f, c09):
     # the tree core also carries the shape invariants on which NULL's reasoned exceptions rest (inner child of a rotated
     # node, sibling of a double-black node): a copy or a mirror arm that deviates invalidates those reasons, so the
     # agreement checks serve C10 as well
-    return PROPS + (['C09'] if f.path in c09 else []) + (['C10'] if f.self_adt in prog.tree_adts else [])
+    # C02 is about the stored shape: only functions that can write the arena can break it; a read-only query that deviates
+    # from its twin gives wrong answers / handles (C09 for the neighbour steps) or a wild dereference (C10), not a wrong tree
+    from rules.live import mutates
+    writes = mutates(prog, f) or f.self_adt not in prog.tree_adts or serves_writer(prog, f)
+    out = (list(PROPS) if writes else []) + (['C09'] if f.path in c09 else []) + (['C10'] if f.self_adt in prog.tree_adts else [])
+    return out or list(PROPS)
+
+
+def serves_writer(prog, f):
+    """is f (transitively) called by a function of its tree that writes the arena? (its answers then steer the writes)"""
+    from rules.live import mutates
+    seen = set()
+    stack = [f]
+    while stack:
+        g = stack.pop()
+        if g.path in seen:
+            continue
+        seen.add(g.path)
+        for _, caller in prog.callers(g):
+            if caller.is_closure:
+                continue
+            if caller.self_adt == f.self_adt and mutates(prog, caller):
+                return True
+            stack.append(caller)
+    return False
 
 
 def scrub_strings(t):
